@@ -391,6 +391,12 @@ func genLibraryScenario(t *rapid.T, sc *Scenario) {
 		}
 		cl.Headers = genHeaderKVs(t, "req_hdr", 2)
 		sc.Backend = genBackend(t, cl, genOpts{maxBlob: 20, backendKinds: []string{"ok", "ok", "ok", "error"}})
+		if sc.Backend.Err != nil {
+			for i := range sc.Backend.Err.Details {
+				// type URLs are resolved by what follows their last slash, whatever precedes it
+				sc.Backend.Err.Details[i].URLPrefix = rapid.SampledFrom([]string{"", "", "types.example.com/acme/", "example.com/", "/"}).Draw(t, "detail_url_prefix")
+			}
+		}
 	}
 }
 
